@@ -342,15 +342,16 @@ def legs(ctx):
     bodies1 = [(t,) for t in BODY_ALPHA]
     if ctx.quick:
         out.append(Leg('sched-keys-main2-dev2',
-                       _shards('keys', 2, bodies1, [nop], 2, 24), work_sched, exhaustive=True,
-                       bound='family keys: main <= 2 over 8 commands x 7 bodies for handler A; all placements of <= 2 occurrences'))
+                       _shards('keys', 2, [nop, ('A:ON',), ('A:STOP',), ('ERR',)], [nop], 2, 12), work_sched,
+                       exhaustive=True,
+                       bound='family keys: main <= 2 over 8 commands x 4 bodies for handler A; all placements of <= 2 occurrences'))
         out.append(Leg('sched-keys-main3-dev1',
-                       _shards('keys', 3, [nop, ('A:ON',), ('A:STOP',)], [nop], 1, 48), work_sched, exhaustive=True,
-                       bound='family keys: main <= 3 x 3 bodies; all placements of <= 1 occurrence'))
+                       _shards('keys', 3, [nop, ('A:OFF',)], [nop], 1, 48), work_sched, exhaustive=True,
+                       bound='family keys: main <= 3 x 2 bodies; all placements of <= 1 occurrence'))
         out.append(Leg('sched-others-main2-dev2',
-                       _shards('timer-pen', 2, [nop, ('A:ON',)], [nop], 2, 16)
-                       + _shards('strig-key', 2, [nop, ('A:ON',)], [nop], 2, 16), work_sched, exhaustive=True,
-                       bound='families timer-pen, strig-key: main <= 2 x 2 bodies; <= 2 occurrences'))
+                       _shards('timer-pen', 2, [nop], [nop], 2, 8)
+                       + _shards('strig-key', 2, [nop], [nop], 2, 8), work_sched, exhaustive=True,
+                       bound='families timer-pen, strig-key: main <= 2, plain handlers; <= 2 occurrences'))
     else:
         out.append(Leg('sched-keys-main3-dev3',
                        _shards('keys', 3, bodies1, [nop, ('B:STOP',)], 3, 8), work_sched, exhaustive=True,
